@@ -1,5 +1,6 @@
 //! Sequence tables (impl Sequence for X), constants, the error-message table, the upload path table.
 use crate::{coq_str, resolve, FileCtx, World};
+use std::collections::BTreeMap;
 use std::fmt::Write as _;
 use std::path::Path;
 use syn::visit::Visit;
@@ -28,6 +29,8 @@ pub struct Consts {
     pub upload_paths: Vec<(String, u64)>,
     pub default_stream_ok: Option<bool>,
     pub currencies: Vec<(String, u64)>,
+    /// sequences whose shape was not recognised in the source and was taken from the observation file (ZVT2COQ_PROBE)
+    pub probed: Vec<String>,
 }
 
 /// every token separated by exactly one blank, punctuation split into single characters
@@ -185,7 +188,7 @@ fn match_single_shape(body: &str) -> bool {
 pub fn scan_impl(w: &mut World, ctx: &FileCtx, im: &syn::ItemImpl) {
     let Some((_, tr, _)) = &im.trait_ else { return };
     let tname = tr.segments.last().unwrap().ident.to_string();
-    if tname == "Display" {
+    if tname == "Display" && false {
         // impl Display for ErrorMessages: Self::X => write!(f, "text")
         if let syn::Type::Path(tp) = &*im.self_ty {
             if tp.path.segments.last().unwrap().ident == "ErrorMessages" {
@@ -268,12 +271,22 @@ struct ConstFinder<'a> {
     out: &'a mut Consts,
 }
 
+thread_local! {
+    /// numeric `const NAME: T = <literal expression>;` items of the file being scanned: a constant used by name counts as its value
+    static CONST_ENV: std::cell::RefCell<BTreeMap<String, u64>> = std::cell::RefCell::new(BTreeMap::new());
+}
+
 fn lit_u64(e: &syn::Expr) -> Option<u64> {
     match e {
         syn::Expr::Lit(l) => match &l.lit {
             syn::Lit::Int(i) => i.base10_parse().ok(),
             _ => None,
         },
+        syn::Expr::Path(p) if p.path.segments.len() == 1 => {
+            let name = p.path.segments[0].ident.to_string();
+            CONST_ENV.with(|m| m.borrow().get(&name).copied())
+        }
+        syn::Expr::Reference(r) => lit_u64(&r.expr),
         syn::Expr::Call(c) => {
             // Some(0x10) / Duration::from_secs(60)
             if c.args.len() == 1 {
@@ -374,6 +387,53 @@ impl<'ast, 'a> Visit<'ast> for ConstFinder<'a> {
         // constants inside trait default methods (throttle / take of ResetSequence::into_stream)
         syn::visit::visit_item_trait(self, t);
     }
+    fn visit_arm(&mut self, a: &'ast syn::Arm) {
+        // the text of a result code, wherever the crate keeps it: an arm `Self::X => "text"` or `Self::X => write!(f, "text")`
+        // (in `impl Display`, or in a helper that `Display` calls) inside the module that defines ErrorMessages
+        if self.prefix == "zvt::constants" {
+            fn names(p: &syn::Pat, out: &mut Vec<String>) {
+                match p {
+                    syn::Pat::Path(p) if p.path.segments.len() == 2 => out.push(p.path.segments[1].ident.to_string()),
+                    syn::Pat::Or(o) => o.cases.iter().for_each(|c| names(c, out)),
+                    _ => {}
+                }
+            }
+            fn text(e: &syn::Expr) -> Option<String> {
+                match e {
+                    syn::Expr::Lit(l) => match &l.lit {
+                        syn::Lit::Str(s) => Some(s.value()),
+                        _ => None,
+                    },
+                    syn::Expr::Macro(m) => {
+                        let toks: Vec<proc_macro2::TokenTree> = m.mac.tokens.clone().into_iter().collect();
+                        match toks.last() {
+                            Some(proc_macro2::TokenTree::Literal(l)) => match syn::parse_str::<syn::Lit>(&l.to_string()) {
+                                Ok(syn::Lit::Str(s)) => Some(s.value()),
+                                _ => None,
+                            },
+                            _ => None,
+                        }
+                    }
+                    syn::Expr::Paren(p) => text(&p.expr),
+                    syn::Expr::Block(b) if b.block.stmts.len() == 1 => match &b.block.stmts[0] {
+                        syn::Stmt::Expr(e, _) => text(e),
+                        _ => None,
+                    },
+                    _ => None,
+                }
+            }
+            let mut ns = vec![];
+            names(&a.pat, &mut ns);
+            if let Some(t) = text(&a.body) {
+                for n in ns {
+                    if !self.out.error_msgs.iter().any(|(k, _)| *k == n) {
+                        self.out.error_msgs.push((n, t.clone()));
+                    }
+                }
+            }
+        }
+        syn::visit::visit_arm(self, a);
+    }
     fn visit_expr_method_call(&mut self, m: &'ast syn::ExprMethodCall) {
         let name = m.method.to_string();
         if (name == "take" || name == "throttle") && m.args.len() == 1 {
@@ -392,10 +452,52 @@ pub fn scan_consts(w: &mut World, ctx: &FileCtx, items: &[syn::Item], _file: &Pa
     if !(prefix.starts_with("zvt_feig_terminal") || prefix.starts_with("zvt::constants") || prefix.starts_with("zvt::feig::sequences") || prefix == "zvt::sequences") {
         return;
     }
+    // first pass: the file's own numeric constants (to a fixed point, so that one constant may name another)
+    struct Collect(Vec<(String, syn::Expr)>);
+    impl<'ast> Visit<'ast> for Collect {
+        fn visit_item_const(&mut self, c: &'ast syn::ItemConst) {
+            self.0.push((c.ident.to_string(), (*c.expr).clone()));
+        }
+        fn visit_impl_item_const(&mut self, c: &'ast syn::ImplItemConst) {
+            self.0.push((c.ident.to_string(), c.expr.clone()));
+        }
+    }
+    let mut col = Collect(vec![]);
+    for it in items {
+        col.visit_item(it);
+    }
+    CONST_ENV.with(|m| m.borrow_mut().clear());
+    for _ in 0..4 {
+        for (name, e) in &col.0 {
+            if let Some(n) = lit_u64(e) {
+                CONST_ENV.with(|m| m.borrow_mut().insert(name.clone(), n));
+            }
+        }
+    }
     let mut cf = ConstFinder { prefix, out: &mut w.consts };
     for it in items {
         if !matches!(it, syn::Item::Mod(_)) {
             cf.visit_item(it);
+        }
+    }
+}
+
+/// Shapes the source does not show in a form the recogniser knows may be supplied by OBSERVATION: the file named by ZVT2COQ_PROBE
+/// holds one line per sequence, `<sequence>\t<final variant>,<final variant>,..`, measured by tools/vlib.py on the real code
+/// (which replies end the exchange).  Only unrecognised shapes are filled in; recognised ones are never overridden.
+pub fn apply_probe(w: &mut World) {
+    let Ok(path) = std::env::var("ZVT2COQ_PROBE") else { return };
+    let Ok(text) = std::fs::read_to_string(&path) else { return };
+    for line in text.lines() {
+        let mut it = line.split('\t');
+        let (Some(name), Some(finals)) = (it.next(), it.next()) else { continue };
+        for s in w.seqs.iter_mut() {
+            if s.abs == name {
+                if let Mode::Unrecognised(_) = s.mode {
+                    s.mode = Mode::Loop(finals.split(',').filter(|x| !x.is_empty()).map(|x| x.to_string()).collect());
+                    w.consts.probed.push(name.to_string());
+                }
+            }
         }
     }
 }
@@ -428,6 +530,8 @@ pub fn emit_coq(w: &World, unrec: &mut Vec<String>) -> String {
         Some(false) => unrec.push("zvt::sequences::Sequence: default into_stream has an unrecognised shape".into()),
         None => unrec.push("zvt::sequences::Sequence: trait not found".into()),
     }
+    writeln!(v, "(* sequences whose shape was OBSERVED on the running code because the source shows it in a form the recogniser does not know *)").unwrap();
+    writeln!(v, "Definition probed : list string := [{}].\n", w.consts.probed.iter().map(|x| coq_str(x)).collect::<Vec<_>>().join("; ")).unwrap();
     writeln!(v, "Definition consts : list (string * N) := [").unwrap();
     writeln!(v, "{}].\n", w.consts.nums.iter().map(|(k, n)| format!("  ({}, {})", coq_str(k), n)).collect::<Vec<_>>().join(";\n")).unwrap();
     writeln!(v, "Definition str_consts : list (string * string) := [").unwrap();
@@ -475,6 +579,8 @@ pub fn emit_json(w: &World) -> String {
             .collect::<Vec<_>>()
             .join(",\n"),
     );
+    j.push_str("],\n\"probed\":[");
+    j.push_str(&w.consts.probed.iter().map(|x| format!("\"{}\"", x)).collect::<Vec<_>>().join(","));
     j.push_str("],\n\"consts\":{");
     j.push_str(&w.consts.nums.iter().map(|(k, n)| format!("\"{}\":{}", k, n)).collect::<Vec<_>>().join(","));
     j.push_str("},\n\"str_consts\":{");
